@@ -402,6 +402,38 @@ func main() {
 			die(2, "non-reproducible violation (%s): machinery trouble, no verdict", a.Viol.Violation.Fingerprint())
 		}
 	}
+	// a listed open finding the search did not happen to hit this time is re-executed from its
+	// committed replay file (fresh process); it is reported only if it still reproduces
+	var listed struct {
+		Findings []sim.KnownFinding `json:"findings"`
+	}
+	if b, err := os.ReadFile(filepath.Join(verif, "known_findings.json")); err == nil {
+		json.Unmarshal(b, &listed)
+	}
+	for _, kf := range listed.Findings {
+		if kf.Status != "open" || kf.Property != prop || kf.Replay == "" {
+			continue
+		}
+		hit := false
+		for k := range a.Known {
+			if strings.HasPrefix(k, kf.Fingerprint+"|") || k == kf.Fingerprint {
+				hit = true
+			}
+		}
+		if hit {
+			continue
+		}
+		c := exec.Command(bin, "-test.run", "^TestProp$", "-test.timeout", "0", "-test.cpu", "2")
+		c.Env = append(os.Environ(), "XSIM_PROP="+prop, "XSIM_REPLAY="+filepath.Join(verif, kf.Replay), "XSIM_SCRATCH="+cacheDir())
+		rout, _ := c.CombinedOutput()
+		if strings.Contains(string(rout), "violation="+kf.Fingerprint+" ") {
+			key := kf.Fingerprint + "|"
+			a.Known[key]++
+			a.KnownWhat[key] = kf.What + " [not drawn by this run's search; reproduced from " + kf.Replay + "]"
+		} else {
+			fmt.Printf("xsim: note: listed finding %s was neither hit by the search nor reproduced from %s\n", kf.Fingerprint, kf.Replay)
+		}
+	}
 	if !*noEvidence {
 		writeEvidence(prop, *tier, seed, pc, a, wall, nviol)
 	}
